@@ -1,6 +1,10 @@
 """Python -> Lean, statement by statement (part of translate.py's output, next to pyobj.py), for
   * the two free functions of ansi_parsing.py: `settings_to_dict` and `parse_graphic_sequence`;
-  * four methods of `class AnsiSetting` (ansi_format.py): `valid`, `to_list`, `parsable`, `get_initial_param`.
+  * four methods of `class AnsiSetting` (ansi_format.py): `valid`, `to_list`, `parsable`, `get_initial_param`;
+  * `ParsedAnsiControlSequenceString.__init__` (the tokenizer) and `.formatted_str` (ansi_parsing.py);
+  * static methods of `_AnsiSettingPoint` (ansi_string.py): `_scrub_ansi_format_int`, `_parse_rgb_string`,
+    `_scrub_ansi_format_string`, and `_scrub_ansi_settings` for the argument types of the one call the latter
+    makes (a list of AnsiSettings; its general, recursive, `id()`-checking form is not translated).
 
 What comes from the source: the statements, their order, the conditions, the shapes of the loops.
 What this module knows beforehand is a small table of *types and primitives* (below: `GLOBALS`, `GLOBAL_ITEMS`,
@@ -51,6 +55,22 @@ Shape of the output (the conventions of pyobj.py):
     `List Code`; `isinstance(v, int)` as the test of an `if` is a `match` that rebinds `v` as `Int` /
     `Str` in the branches;  a parameter annotated `Union[str, List[...]]` gives one Lean function per
     member of the union, `isinstance(param, str)` being decided while translating;
+  * `while c: b` is `PyParse.whileM fuel_ <c> <b> <state>`, test and round as functions of the state (the
+    variables the body assigns); `fuel_ : Nat`, a parameter of the generated function (handed on to translated
+    functions it calls), bounds the number of rounds — running out of it is `Exc.outside`, and the theorems say
+    from which value on that does not happen;
+  * `ParsedAnsiControlSequenceString` is the model's `Parsed` (`_s` = text, `sequences` = seqs, a dictionary in
+    insertion order: `PyParse.seqsHas/seqsAppend/seqsSet/seqsItems`); `__init__` returns the object it leaves;
+  * `try … except KeyError` like `except ValueError` (`AnsiFormat[name]` is `PyParse.formatMember`, `none` =
+    KeyError); a call of another translated function is a `.bind` (its exceptions pass through; inside a `try`
+    that could catch them it is refused);
+  * `re.search(<literal>, s)` is `Re.matchStart Gen.regex_<function>_<k> s` (the k-th call site, harness/pyre.py),
+    `match.group(n)` is `Re.group caps n`, `if match:` a `match` on the option;
+  * a condition the static types decide (`isinstance(x, list)`, `isinstance(setting, AnsiSetting)` for a list of
+    AnsiSettings, …) is decided while translating: only the branch taken is translated; `id(x)` is an opaque value
+    that can be stored, not inspected;
+  * a variable assigned `None` and later a value is an `Option`; a list that holds AnsiSettings and ints (by the
+    return annotation `List[Union[AnsiSetting,int]]`) is a `List SOut`;
   * `self` in a method of AnsiSetting is `PyParse.SObj` (the text and the two cache attributes as
     `Option Bool`, `none` = `hasattr` is False); a method that assigns attributes (or reads a property that
     does) returns `(result, self)`; reading such a property of self is
@@ -468,11 +488,18 @@ class Fn:
             return self.call(e, env)
         raise Unsupported(ast.unparse(e))
 
+    def elem_default(self, t):
+        """what a list holds whose first element has type t: ints and strs are kept as `Code`; in a function that
+        returns a list of AnsiSettings and ints, those are kept as `SOut`"""
+        if self.scalar_elem.kind == 'SOut' and t.kind in ('Int', 'SettingTxt'):
+            return SOUT
+        return self.scalar_elem if t.kind in SCALAR else t
+
     def coerce(self, x, t, want):
         """x : t as an element of a list / a value of the type `want`"""
         t, want = t.r(), want.r()
         if want.kind == 'Var':
-            unify(want, self.scalar_elem if t.kind in SCALAR else t)
+            unify(want, self.elem_default(t))
             want = want.r()
         if t.kind == 'Var':
             unify(t, want)
@@ -1057,7 +1084,7 @@ class Fn:
                     n2 = self.tmp()
                     b, x, t = b + [('bind', 'Py.optGet %s' % x, n2)], n2, t.r().elem
                 if tt.r().elem.r().kind == 'Var':
-                    unify(tt.r().elem, self.scalar_elem if t.r().elem.r().kind in SCALAR else t.r().elem)
+                    unify(tt.r().elem, self.elem_default(t.r().elem.r()))
                 new, ty = '(%s ++ %s)' % (n, self.coerce(x, t, tt)), tt
             else:
                 raise Unsupported(ast.unparse(s))
